@@ -1,5 +1,5 @@
 import Pcore.Proofs.ValueEqTy
-import Pcore.Proofs.ValueEqVer
+import Pcore.Proofs.ValueEqVerStr
 import Mathlib.Data.List.Perm.Subperm
 /-! Helper lemmas for C07: the hypotheses of the property theorems (`Comparable`), an induction principle for `Val`,
     and `veq` is an equivalence relation on comparable values. -/
@@ -28,8 +28,8 @@ def cmp : Val → Bool
   | .typ t => TyWF t
   | .timespan n => minInt ≤ n && n ≤ maxInt
   | .timestamp a b => (minInt ≤ a && a ≤ maxInt) && (minInt ≤ b && b ≤ maxInt)
-  | .semver _ => false        -- (stage 1: not yet inside the key theorems)
-  | .vrange _ _ => false      -- (stage 1)
+  | .semver v => verOk v      -- as `NewVersion3` makes it: Go ints, parts that match the part patterns
+  | .vrange o rs => o.isEmpty && rs.all arOk   -- WITHOUT an original string (known finding C07-semver-range-original-key)
   | .tname _ _ _ => false     -- no hash key at all: `EqComparable` only
   | .deferred _ _ => false
   | .param _ _ _ _ _ => false
